@@ -22,11 +22,11 @@ def gen(run):
 
 
 def correspond(run, corr):
-    wc.correspond(run, corr, CORR_PROFILES, 400, 4000)
+    wc.correspond(run, corr, CORR_PROFILES, 10000, 150000)
 
 
 def search(run, corr, deep):
-    found = wc.oracle(run, corr, deep, ID, ORACLE_PROFILES, 400, 5000)
+    found = wc.oracle(run, corr, deep, ID, ORACLE_PROFILES, 6000, 100000)
     if ID == "C03":
         # thread schedules: one socket-thread operation racing one tick at every atomic-action boundary
         found += wc.sched_oracle(run, corr, deep)
